@@ -180,3 +180,33 @@ func H_C17_compareVals_three() {
 	vpAssert(sgn(CompareVals(x, y)) == want, "lexicographic over three positions")
 	vpCover("reached")
 }
+
+// Tuples of different length (hunt C17 finding 2): a proper prefix sorts first,
+// in both argument orders, without a panic, and agrees with EqualVals.
+func H_C17_compareVals_lengths() {
+	a0, b0 := vpInt32(), vpInt32()
+	a1 := vpInt32()
+	la, lb := 1+vpChoose(2), 1+vpChoose(2)
+	x := []Value{Int32(a0), Int32(a1)}[:la]
+	y := []Value{Int32(b0), Int32(a1)}[:lb]
+	vpCover("reached")
+	var c int
+	panicked := vpCatch(func() { c = sgn(CompareVals(x, y)) })
+	vpAssert(!panicked, "comparing tuples of different length does not panic")
+	if panicked {
+		return
+	}
+	want := 0
+	switch {
+	case a0 < b0:
+		want = -1
+	case a0 > b0:
+		want = 1
+	case la < lb:
+		want = -1
+	case la > lb:
+		want = 1
+	}
+	vpAssert(c == want, "lexicographic: a proper prefix sorts before the longer tuple")
+	vpAssert((c == 0) == EqualVals(x, y), "CompareVals is 0 exactly when EqualVals holds")
+}
